@@ -67,6 +67,9 @@ var commonAssumptions = []string{
 const realVsStub = "real: client, frame, segment, message, primitive, datatype, compression, crc packages (instrumented copy of the working tree), Go channels/mutexes/contexts/timers; stub: TCP (sim/net.go), clock (synctest), OS scheduler (seeded baton), logging (zerolog disabled)"
 
 var cfgs = map[string]*propCfg{
+	"C09": {Profile: "client", QuickCases: 6400, ThoroughCases: 400000, QuickSecs: 100, ThoroughSecs: 1500, Level: "exploration",
+		Rule: "case = one seeded concurrent history on the real in-flight request handler (N, managed or explicit ids, 1-4 senders, a deliverer issuing final/non-final/unknown-id responses, optional concurrent close; interleaved at statement granularity), checked (1) for linearizability against the sequential stream-id model with porcupine, (2) for operations that block, (3) for id recycling at the final quiescent checkpoint. distinct = distinct event-log fingerprints; non-trivial = at least two operations of different clients overlapped in the history",
+		Assumptions: []string{"handler reached through a generated export shim (client/zz_verif_shim.go); mixing managed and explicit ids on one handler is not generated (the API documents it as not recommended and the statement does not cover it)"}},
 	"C16": {Profile: "client", QuickCases: 640, ThoroughCases: 24000, QuickSecs: 100, ThoroughSecs: 1500, Level: "fault_enumeration",
 		Rule: "case = one seeded session (version, auth, limits, timeouts, link, senders, response plans, schedule strategy all drawn from the tape) run fault-free, then re-run with the same seed and one or two crash points (fault kind x scheduler step) drawn uniformly over the session's steps; thorough additionally enumerates every step boundary x fault kind for fixed sessions. distinct = distinct event-log fingerprints (hash of every scheduling decision and harness event); non-trivial = at least one task switch between two tasks that were both inside repository code and at least one request was attempted"},
 }
